@@ -36,6 +36,12 @@ EXTENDS DslAst
 
 CONSTANT Lits          \* literal dictionary: x.v (repr text) |-> integer value
 
+\* Switch used ONLY to recognise known deviations of reader.alchemy (never the requirement): with the key "$asis"
+\* in the literal dictionary the semantics is the AS-IS rendering - a cross join emitted as FULL OUTER JOIN ON
+\* true, and Not mapped to python's "not" (constant TRUE for an equality of two different operands, FALSE for
+\* identical ones, no SQL at all - an exception - for any other operand).
+AsIs == "$asis" \in DOMAIN Lits
+
 NULL == -9999
 Poison == -7777        \* value of an operator this semantics does not define: never equals an observed value
 
@@ -91,23 +97,30 @@ Agg(fn, e, keys, grp) ==
       [] fn = "max" -> IF vs = <<>> THEN NULL ELSE CHOOSE m \in Range(vs) : \A x \in Range(vs) : m >= x
       [] OTHER -> Poison     \* avg has no integer value: only OutVal knows it
 \* value of feature e in the row (positions named by keys); grp = the rows of the group for aggregates
+\* (the operands are named once - a1, a2 are evaluated lazily, a2 only by the binary operators)
+OpVal(e, a1, a2) ==
+    CASE e.op \in Compare -> Cmp(e.op, a1, a2)
+      [] e.op \in Arith -> Ari(e.op, a1, a2)
+      [] e.op = "and" -> And3(a1, a2)
+      [] e.op = "or" -> Or3(a1, a2)
+      [] e.op = "not" ->
+           IF ~AsIs THEN Not3(a1)
+           ELSE IF e.args[1].f = "op" /\ e.args[1].op = "eq" THEN B(e.args[1].args[1] # e.args[1].args[2])
+           ELSE Poison
+      [] e.op = "isnull" -> B(a1 = NULL)
+      [] e.op = "notnull" -> B(a1 # NULL)
+      [] e.op = "abs" -> IF a1 = NULL THEN NULL ELSE Abs(a1)
+      \* values are integral: casts between the numeric kinds, ceil and floor keep the value
+      [] e.op \in {"cast", "ceil", "floor"} -> a1
+      [] OTHER -> Poison
 Val(e, keys, row, grp) ==
     CASE e.f = "col" -> row[Idx(keys, e)]
       [] e.f = "lit" -> Lits[e.v]
-      [] e.f = "alias" -> Val(e.args[1], keys, row, grp)
       [] e.f = "agg" -> Agg(e.op, e.args[1], keys, grp)
-      [] e.f = "op" ->
-           CASE e.op \in Compare -> Cmp(e.op, Val(e.args[1], keys, row, grp), Val(e.args[2], keys, row, grp))
-             [] e.op \in Arith -> Ari(e.op, Val(e.args[1], keys, row, grp), Val(e.args[2], keys, row, grp))
-             [] e.op = "and" -> And3(Val(e.args[1], keys, row, grp), Val(e.args[2], keys, row, grp))
-             [] e.op = "or" -> Or3(Val(e.args[1], keys, row, grp), Val(e.args[2], keys, row, grp))
-             [] e.op = "not" -> Not3(Val(e.args[1], keys, row, grp))
-             [] e.op = "isnull" -> B(Val(e.args[1], keys, row, grp) = NULL)
-             [] e.op = "notnull" -> B(Val(e.args[1], keys, row, grp) # NULL)
-             [] e.op = "abs" -> LET v == Val(e.args[1], keys, row, grp) IN IF v = NULL THEN NULL ELSE Abs(v)
-             \* values are integral: casts between the numeric kinds, ceil and floor keep the value
-             [] e.op \in {"cast", "ceil", "floor"} -> Val(e.args[1], keys, row, grp)
-             [] OTHER -> Poison
+      [] e.f \in {"alias", "op"} ->
+           LET a1 == Val(e.args[1], keys, row, grp)
+               a2 == Val(e.args[2], keys, row, grp)
+           IN IF e.f = "alias" THEN a1 ELSE OpVal(e, a1, a2)
       [] OTHER -> Poison
 IsAvg(e) == Operable(e).f = "agg" /\ Operable(e).op = "avg"
 \* an output cell: an integer, or the normalised <<num, den>> pair of a top-level avg
@@ -118,7 +131,6 @@ OutVal(e, keys, row, grp) ==
     ELSE Val(e, keys, row, grp)
 
 (* -------------------------------- sources ------------------------------ *)
-CrossAsFull == "$crossfull"
 TableRows(s, db, p) == IF p \in DOMAIN db THEN db[p] ELSE db[s.name]
 NullRow(keys) == [i \in DOMAIN keys |-> NULL]
 \* lexicographic order of key tuples under the directions dirs (TRUE = descending); NULL sorts lowest (keys that
@@ -154,9 +166,7 @@ JoinRel(s, db, p) ==
                    [] s.kind = "left" -> matched \o lonly
                    [] s.kind = "right" -> matched \o ronly
                    [] s.kind = "full" -> matched \o lonly \o ronly
-                   \* a database carrying the marker CrossAsFull is evaluated under the AS-IS rendering of a cross
-                   \* join (FULL OUTER JOIN ON true); TraceReads uses it to recognise that known deviation
-                   [] s.kind = "cross" -> IF CrossAsFull \in DOMAIN db THEN matched \o lonly \o ronly ELSE matched]
+                   [] s.kind = "cross" -> IF AsIs THEN matched \o lonly \o ronly ELSE matched]
 
 \* relation of an origin (table, reference, join) or of a statement used as one
 Rel(s, db, p) ==
